@@ -27,6 +27,11 @@ LABELS = {
     "negint": [-3, 10, -7, 2, 5, -1, 8, 0, 4] + [(-1) ** i * (20 + i) for i in range(15)],
     # one numeric arm list mixing int and non-integral float labels, first label an int
     "mixnum": [1, 2, 4.5, 3, 0.5, 7, 2.25, 10, 6.75, 12, 13, 8.5] + [(40 + i) if i % 2 else (40 + i + 0.25) for i in range(12)],
+    # distinct float labels that agree in their first 6-15 significant digits (computed values, large identifiers)
+    "closefloat": [0.1 + 0.2, 0.3, 1000000.0, 1000001.0, 2.5, 2.5 + 2.0 ** -30, 1e15, 1e15 + 1.0, 20240101.0, 20240102.0, 7.0, 7.0 - 2.0 ** -40] +
+                  [float(3000000 + i) for i in range(12)],
+    # large integral float identifiers (the only float labels the Simulator's confusion matrix accepts)
+    "bigfloat": [float(1000001 + 3 * i + (i % 2)) for i in range(24)],
     "strrev": ["z", "y", "x", "w", "v", "u", "t", "s", "r"] + ["q%02d" % (40 - i) for i in range(15)],
 }
 
@@ -354,7 +359,7 @@ def apply_op(m, op):
     if k in ("fit", "partial_fit"):
         f = m.fit if k == "fit" else m.partial_fit
         d = np.asarray(op["d"])
-        r = np.asarray(op["r"], dtype=bool if op.get("r_dtype") == "bool" else float)
+        r = np.asarray(op["r"], dtype={"bool": bool, "int64": np.int64}.get(op.get("r_dtype"), float))
         if op.get("X") is not None:
             f(d, r, enc_X(op["X"], op.get("x_enc"), training=True))
         else:
